@@ -75,6 +75,11 @@ func (w *WorkerPool) Start() *WorkerPool {
 	if !w.isRunning.Load() {
 		w.ShutdownComplete.Wait()
 
+		// a worker of the previous run that left through the closed dispatcher channel did not consume its shutdown
+		// token: discard what is left, otherwise a fresh worker takes it and cancels (or keeps draining) tasks of a
+		// running WorkerPool
+		w.shutdownSignal = make(chan struct{}, w.workerCount)
+
 		w.isRunning.Store(true)
 
 		w.startDispatcher()
